@@ -74,7 +74,7 @@ def build_plan(choice: Choice, tier):
     if many_edits:
         n_ops = 1030 + d(100, "ops.many.n")     # more single edits on one open object than any small constant
     for _ in range(n_ops):
-        k = d(25, "op")
+        k = d(28, "op")     # 25-27: a save (with or without an injected fault)
         if many_edits and k > 8:
             k = [0, 1, 2, 3, 5][d(5, "op.edit")]     # mostly edits
         if k == 0:
